@@ -662,6 +662,16 @@ def trimmed_store(f, nid, rhs, cls):
     mt = re.match(r'^(.+)\.substr\(0,\(?(.+)\.find_last_not_of\(32(?:,18446744073709551615)?\) \+ 1\)?\)$', r_)
     if mt and mt.group(1) == mt.group(2):
         return True, 'stored value is %s cut behind its last character that is not a space' % mt.group(1)
+    if m['k'] == 'CallExpr' and m.get('callee', {}).get('qname') == 'std::move' and m.get('args'):
+        pm = f.nodes[f.strip(m['args'][0], 'all')]
+        if pm['k'] == 'DeclRefExpr' and pm['decl'].get('dk') == 'param':
+            # name(std::string&&): the argument is moved into the member - trimmed before the move, or not at all
+            gm = f.events()
+            svm = gm.vertex_of.get(nid) or gm.vertex_of.get(f.strip(rhs, 'all'))
+            tr_ = [n for n in f.calls() if n['callee']['qname'] == 'ezc3d::removeTrailingSpaces' and f.nodes[f.strip(n['args'][0], 'all')].get('decl', {}).get('id') == pm['decl']['id']]
+            if any(gm.vertex_of.get(t_['id']) is not None and svm is not None and gm.dominates(gm.vertex_of[t_['id']], svm) for t_ in tr_):
+                return True, 'the argument is trimmed by ezc3d::removeTrailingSpaces and then moved into the name'
+            return False, 'the argument is moved into the name as given%s: trailing spaces are kept' % (' (it is trimmed only afterwards, when it no longer holds the text)' if tr_ else '')
     if kind in ('param', 'param-value') and m['k'] == 'DeclRefExpr':
         return False, 'the argument is stored as given (source: %s %s): trailing spaces are kept' % (kind, '.'.join(path))
     return None, 'the stored value (%s) is computed in a form the rule does not read [shape not read by the rule]' % r_[:120]
